@@ -56,7 +56,7 @@ def _run_props(res, ctx):
             if mode != "none":
                 for k in rng.sample(range(len(lines) - 1), min(3, len(lines) - 1)):
                     if lines[k].strip() and not lines[k].rstrip().endswith(":"):
-                        txt = "# nosec" if mode == "bare" or (mode == "mixed" and rng.random() < .5) else "# nosec " + rng.choice(["B101", "B602", "B105", "B404", "B301", "B108", "B603"])
+                        txt = "# nosec" if mode == "bare" or (mode == "mixed" and rng.random() < .5) else "# nosec " + rng.choice(["B101", "B602", "B105", "B404", "B301", "B108", "B603", "B001", "B403", "B001, B101", "pickle", "import_subprocess", "B001: reviewed"])
                         lines[k] += "  " + txt
             src = "\n".join(lines)
             vs = variants(rng, src)
@@ -178,7 +178,9 @@ def _run_props(res, ctx):
                "import subprocess\nsubprocess.Popen('ls',  # nosec\n    env=e,\n    shell=True)  # nosec B602, B607\n",
                "from flask import Flask\napp = Flask(__name__)\napp.run(host=h,  # nosec B201\n        debug=True)  # nosec B201\n",
                "import requests\nrequests.get(url,  # nosec\n             verify=False)  # nosec\n",
-               "import subprocess\nsubprocess.call(cmd,  # nosec B101\n                shell=True)  # nosec B602\n"]
+               "import subprocess\nsubprocess.call(cmd,  # nosec B101\n                shell=True)  # nosec B602\n",
+               "import pickle  # nosec B001\nimport subprocess  # nosec: B001 reviewed\npickle.loads(b)  # nosec B001, B101\nimport telnetlib  # nosec blacklist\n",
+               "import pickle  # nosec B403\npickle.loads(b)  # nosec\nassert x  # nosec B001\n"]
         for src2 in two:
             pth = scratch.fresh("two.py", src2.encode())
             outs = {}
@@ -197,6 +199,10 @@ def _run_props(res, ctx):
         extra_dir = os.path.join(scratch.root, "extra12"); os.makedirs(extra_dir)
         sets12 = {"same_line": {"s.py": "dirs = ['/tmp/a', '/var/tmp/b', '/dev/shm/c']\nif password == 'x' or token == 'x':\n    pass\nbind = ('0.0.0.0', '0.0.0.0')\n"
                                         "q = 'SELECT * FROM t WHERE a = %s' % a + 'DELETE FROM t WHERE b = %s' % b\n", "plain.py": "a = '/tmp/x'\nb = '/tmp/y'\n"},
+                  # findings on coroutines, and blacklist findings under comments naming the umbrella id: whatever is reported or withheld is counted (seeded changes
+                  # C12-m13: a new visit_AsyncFunctionDef ran the checks without adding their scores; C12-m14: `# nosec B001` withheld without counting)
+                  "async_defs": {"co.py": "import ssl\nasync def login(user, password='s3cr3t'):\n    pass\nclass K:\n    async def m(self, token='t0k', v=ssl.PROTOCOL_SSLv3):\n        assert self\n"
+                                          "async def g():\n    async with a as b:\n        exec(c)\n    async for i in r:\n        eval(i)\n"},
                   "none_survives": {"old1.py": "print 'py2'\r\nx = 1\r\n# comment\r\nimport pickle  # nosec", "old2.py": "exec 'code'\ny = 2\n\n"},
                   "one_survives": {"old1.py": "print 'py2'\nx = 1\n", "ok.py": "import pickle\nassert x\n"}}
         for label, fs in sets12.items():
